@@ -377,6 +377,12 @@ func generate(w *world, thorough bool) []*Case {
 		g.sigFamily(post, thorough)
 		g.sigFamily(cmpct, thorough)
 	}
+	// bursts against the bounded queues while the main thread is not reading them
+	g.burstFamily(ready, true)
+	if thorough {
+		g.burstFamily(post, true)
+		g.burstFamily(g.ctx["dl"], false)
+	}
 	// block-related commands while a full-block download from this peer is in flight
 	dl := g.ctx["dl"]
 	for _, n := range []string{"blocktxn", "block", "cmpctblock-missing"} {
@@ -502,6 +508,7 @@ type tally struct {
 	conns     int64
 	selfOK    int
 	dlOK      int
+	burstOK   int
 	sigOK     map[string]int
 	usNet     int64
 	usNetMax  int64
@@ -680,6 +687,21 @@ func main() {
 				if strings.Contains(cs.Family, k+":valid") && !strings.Contains(cs.Family, ":wrong") && !strings.Contains(cs.Family, ":empty") {
 					t.sigOK[k]++
 				}
+			}
+		}
+		if cs.Kind == "net" && cs.Tmpl == "burst-tx" {
+			// 2048 queued, 2 dropped by the non-blocking send, the signed spend after the burst accepted
+			if !strings.Contains(res.Outcome, "txq-full-drops=2") || !strings.Contains(res.Outcome, " mp=1/") {
+				selfFail.Store("burst against NetTxs did not fill the queue / was not followed by normal processing: " + res.Outcome)
+			} else {
+				t.burstOK++
+			}
+		}
+		if cs.Kind == "net" && cs.Tmpl == "burst-block" {
+			if !strings.Contains(res.Outcome, "backpressure=1") {
+				selfFail.Store("burst against NetBlocks did not fill the queue: " + res.Outcome)
+			} else {
+				t.burstOK++
 			}
 		}
 		if cs.Kind == "net" && cs.Ctx == "dl" && cs.Family == "valid" && cs.Tmpl == "ping" {
@@ -890,6 +912,7 @@ func main() {
 		"worker_deaths_in_batches": t.deaths,
 		"timing_disturbed_reruns":  t.disturbed,
 		"context_dl_established":   t.dlOK,
+		"queue_bursts_filled":      t.burstOK,
 		"signed_spends_accepted":   t.sigOK,
 		"oracle_selftests_passed":  t.selfOK,
 		"samples":                  samples.L,
